@@ -133,9 +133,18 @@ func (b *RecBeacon) DomainData(epoch phase0.Epoch, domain phase0.DomainType) (ph
 }
 
 // RecNet records every broadcast.
-type RecNet struct{ Msgs []*spectypes.SSVMessage }
+type RecNet struct {
+	Msgs []*spectypes.SSVMessage
+	Fail bool // the network refuses to publish (Broadcast returns an error, nothing is recorded)
+}
 
-func (n *RecNet) Broadcast(m *spectypes.SSVMessage) error { n.Msgs = append(n.Msgs, m); return nil }
+func (n *RecNet) Broadcast(m *spectypes.SSVMessage) error {
+	if n.Fail {
+		return fmt.Errorf("network refused to publish")
+	}
+	n.Msgs = append(n.Msgs, m)
+	return nil
+}
 
 // SignEvent is one KeyManager.SignBeaconObject call.
 type SignEvent struct {
